@@ -25,6 +25,8 @@ const (
 	kCliBatchOver = "client (end to end): a long-polling request with several packets exceeds the announced maxPayload"
 	kCliLost      = "client (end to end): packets of a burst within the limit lost, duplicated, reordered or altered"
 	kCliClosed    = "client (end to end): connection closed although every packet is within the announced limit"
+	kCliS2CLost   = "client (end to end): packets of a server burst within the limit lost, duplicated, reordered or altered on their way to a polling client"
+	kCliS2CClosed = "client (end to end): connection closed by a server burst whose packets are each within the announced limit"
 )
 
 type cliCase struct {
@@ -32,9 +34,15 @@ type cliCase struct {
 	Limit string `json:"limit"` // name of a cliLimit
 	N     int    `json:"packets"`
 	Size  int    `json:"size"` // encoded size of each packet (type byte included)
+	// S2C: the burst goes the other way - the server hands N packets to Send at once (they are answered by one
+	// poll, whatever they add up to: maxPayload bounds what a client SENDS), the client must receive them all
+	S2C bool `json:"server_to_client,omitempty"`
 }
 
 func (c cliCase) String() string {
+	if c.S2C {
+		return fmt.Sprintf("server limit %s, server sends %d text packets of %d bytes in one Send to a polling client", c.Limit, c.N, c.Size)
+	}
 	return fmt.Sprintf("server limit %s, client sends %d text packets of %d bytes in one Send over polling", c.Limit, c.N, c.Size)
 }
 
@@ -104,7 +112,12 @@ func runCliCase(c *ctx, cc cliCase, limIdx int, st *partStats) {
 	closed := make(chan closeInfo, 4)
 	arrived := make(chan struct{}, 1024)
 	cfg := quietHeartbeat(spec.cfg)
+	ssockCh := make(chan eio.ServerSocket, 4)
 	srv := eio.NewServer(func(s eio.ServerSocket) *eio.Callbacks {
+		select {
+		case ssockCh <- s:
+		default:
+		}
 		return &eio.Callbacks{
 			OnPacket: func(packets ...*parser.Packet) {
 				for _, p := range packets {
@@ -135,6 +148,23 @@ func runCliCase(c *ctx, cc cliCase, limIdx int, st *partStats) {
 	rt := &measuringRT{h: srv}
 	cliClosed := make(chan closeInfo, 4)
 	cli, err := eio.Dial("http://inproc/engine.io/", &eio.Callbacks{
+		OnPacket: func(packets ...*parser.Packet) {
+			if !cc.S2C {
+				return
+			}
+			for _, p := range packets {
+				if p.Type != parser.PacketTypeMessage {
+					continue
+				}
+				mu.Lock()
+				got = append(got, string(p.Data))
+				mu.Unlock()
+				select {
+				case arrived <- struct{}{}:
+				default:
+				}
+			}
+		},
 		OnClose: func(reason eio.Reason, err error) {
 			select {
 			case cliClosed <- closeInfo{string(reason), errString(err)}:
@@ -163,7 +193,17 @@ func runCliCase(c *ctx, cc cliCase, limIdx int, st *partStats) {
 		want = append(want, string(data))
 		pk = append(pk, &parser.Packet{Type: parser.PacketTypeMessage, Data: data})
 	}
-	cli.Send(pk...)
+	if cc.S2C {
+		select {
+		case ss := <-ssockCh:
+			ss.Send(pk...)
+		case <-time.After(curDeadline()):
+			c.capHit("cli rig: the server socket callback did not arrive")
+			return
+		}
+	} else {
+		cli.Send(pk...)
+	}
 	deadline := time.NewTimer(curDeadline())
 	defer deadline.Stop()
 	n := 0
@@ -190,6 +230,19 @@ wait:
 	mu.Lock()
 	g := append([]string{}, got...)
 	mu.Unlock()
+	if cc.S2C {
+		switch {
+		case isClosed:
+			report(kCliS2CClosed, fmt.Sprintf("closed with reason %q err %q after %d of %d packets", ci.reason, ci.err, len(g), cc.N))
+		case len(g) < cc.N:
+			c.capHit(fmt.Sprintf("cli rig: only %d of %d packets arrived within the deadline and nothing was closed (%s)", len(g), cc.N, cc))
+		case fmt.Sprint(g) != fmt.Sprint(want):
+			report(kCliS2CLost, fmt.Sprintf("client received %d packets, sent %d (first difference matters); sizes %d", len(g), len(want), cc.Size))
+		default:
+			st.Outcomes["server burst delivered to the polling client in order"]++
+		}
+		return
+	}
 	for _, p := range posts {
 		if limit > 0 && p.packets > 1 && p.bytes > limit {
 			report(kCliBatchOver, fmt.Sprintf("a POST carried %d packets in %d bytes (announced maxPayload %d); all POSTs (bytes, packets): %v", p.packets, p.bytes, limit, posts))
@@ -247,6 +300,10 @@ func cliCases(c *ctx) (cases []cliCase, limIdx []int) {
 			for _, s := range uniqSorted(sizes) {
 				cases = append(cases, cliCase{Part: "cli", Limit: l.Name, N: n, Size: s})
 				limIdx = append(limIdx, li)
+				if n <= 3 {
+					cases = append(cases, cliCase{Part: "cli", Limit: l.Name, N: n, Size: s, S2C: true})
+					limIdx = append(limIdx, li)
+				}
 			}
 		}
 	}
